@@ -8,6 +8,7 @@ ASSUME_COMMON = [
 
 CHECKS = {
     "C01": dict(
+        crash_is_violation=True,
         parts=[dict(pkg="table", run="^TestC01$",
                     quick=dict(shards=4, checks=250, timeout=240),
                     thorough=dict(shards=16, checks=3000, timeout=1500))],
@@ -51,6 +52,7 @@ CHECKS = {
         assumptions=["firing is looked for during a bounded window (30 ms grace after the last operation, 1.5 s margin around timeouts); monotonic time only as a lower bound"],
     ),
     "C02": dict(
+        crash_is_violation=True,
         parts=[dict(pkg="table", run="^TestC02$",
                     quick=dict(shards=4, checks=150, timeout=300),
                     thorough=dict(shards=16, checks=2500, timeout=1800)),
@@ -101,6 +103,7 @@ CHECKS = {
         assumptions=ASSUME_COMMON,
     ),
     "C08": dict(
+        crash_is_violation=True,
         parts=[dict(pkg="table", run="^TestC08$",
                     quick=dict(shards=8, checks=80, timeout=300),
                     thorough=dict(shards=16, checks=450, timeout=1800)),
@@ -123,10 +126,11 @@ CHECKS = {
                     quick=dict(shards=3, checks=120, timeout=300),
                     thorough=dict(shards=12, checks=2000, timeout=1800))],
         rule='cases = generated table histories in which, at every decision point (group requests, turns, after settlement, paused), 0-3 intruder attempts are drawn from a 5x9 actor/action matrix (current player with a disallowed kind, other participant, folded/all-in participant, seated non-participant, stranger) x (fold check call bet raise allin pass ready pay); oracle: an attempt the hand does not allow returns an error and table JSON, hand-state JSON, successful backend calls and emitted events are identical before and after; every accepted driver action is applied exactly once and announced once with player, seat, action, round, hand; concurrent part (c10b): at drawn turns every player at the table and strangers submit an action at the same instant - accepted submissions = announced actions, each successful backend call belongs to the entry whose turn it then was, the hand still settles with chips conserved and equal to the pure replay; non-trivial = a case with >=1 refused attempt by a dealt-in player out of turn and >=1 by a non-participant; distinct = distinct abstract traces',
-        mandatory=dict(quick=['inhand_leave', 'table_stopped_mid_hand_PauseTable', 'table_stopped_mid_hand_CloseTable', 'cell:current/pass', 'cell:participant/fold', 'cell:inactive/check', 'cell:nonparticipant/call', 'cell:stranger/bet', 'attempt_group_request', 'attempt_after_settle', 'attempt_when_paused']),
+        mandatory=dict(quick=['inhand_leave_below_participant', 'inhand_leave', 'table_stopped_mid_hand_PauseTable', 'table_stopped_mid_hand_CloseTable', 'cell:current/pass', 'cell:participant/fold', 'cell:inactive/check', 'cell:nonparticipant/call', 'cell:stranger/bet', 'attempt_group_request', 'attempt_after_settle', 'attempt_when_paused']),
         assumptions=ASSUME_COMMON,
     ),
     "C11": dict(
+        crash_is_violation=True,
         parts=[dict(pkg="table", run="^TestC11$",
                     quick=dict(shards=4, checks=150, timeout=300),
                     thorough=dict(shards=16, checks=2500, timeout=1800)),
@@ -152,6 +156,7 @@ CHECKS = {
         assumptions=ASSUME_COMMON,
     ),
     "C13": dict(
+        crash_is_violation=True,
         parts=[dict(pkg="table", run="^TestC13$",
                     quick=dict(shards=4, checks=150, timeout=300),
                     thorough=dict(shards=16, checks=2500, timeout=1800))],
